@@ -661,7 +661,10 @@ func progressDiag(nw *Network, tx []byte) interface{} {
 		h := n.Core.Hg()
 		d := map[string]interface{}{"idx": n.Idx, "state": n.Node.GetState().String(), "silent": n.Silent, "busy": n.Core.Busy(), "known": fmt.Sprint(n.Core.KnownEvents()),
 			"undetermined": len(h.UndeterminedEvents), "pending_rounds": fmt.Sprint(h.VerifPendingRounds()), "last_round": h.Store.LastRound(), "lcr": n.Node.GetLastConsensusRoundIndex(),
-			"validators": n.Core.Validators().Len(), "pool": len(n.Core.TransactionPool()), "loaded": h.PendingLoadedEvents, "itxpool": len(n.Core.InternalTransactionPool()), "selfsigs": len(n.Core.SelfBlockSignatures()), "rounds": fmt.Sprint(n.Core.Rounds()), "committed_tx": committedBy(n, tx), "last_block": n.Node.GetLastBlockIndex(), "sigpool": h.PendingSignatures.Len(), "trace": traceTx(nw, n, tx)}
+			"validators": n.Core.Validators().Len(), "pool": len(n.Core.TransactionPool()), "loaded": h.PendingLoadedEvents, "itxpool": len(n.Core.InternalTransactionPool()), "selfsigs": len(n.Core.SelfBlockSignatures()), "rounds": fmt.Sprint(n.Core.Rounds()), "resets": n.ResetEpochs, "insert_failed_step": n.InsertFailedStep, "last_block": n.Node.GetLastBlockIndex(), "sigpool": h.PendingSignatures.Len()}
+		if tx != nil {
+			d["trace"] = traceTx(nw, n, tx)
+		}
 		lu := []string{}
 		for _, u := range h.UndeterminedEvents {
 			if ev, err := h.Store.GetEvent(u); err == nil && ev.IsLoaded() {
